@@ -114,6 +114,9 @@ package consensus
 
 //@ func Handshaker.Handshake
 //@   requires between: abciPhase == 0 && !mockActive
+//@   requires crashpoint: imethod(h.store, Height) == 0 || imethod(h.store, Height) == h.initialState.LastBlockHeight ||
+//@     | imethod(h.store, Height) == ite(h.initialState.LastBlockHeight == 0, h.initialState.InitialHeight, h.initialState.LastBlockHeight + 1)
+//@   requires appsane: appH == 0 || appH >= h.initialState.InitialHeight
 //@   requires init: h.initialState.InitialHeight >= 1 && h.genDoc.InitialHeight == h.initialState.InitialHeight
 //@   requires store: (imethod(h.store, Height) == 0 || imethod(h.store, Height) >= h.initialState.InitialHeight) && (h.initialState.LastBlockHeight == 0 || h.initialState.LastBlockHeight >= h.initialState.InitialHeight)
 //@   ensures ready: result == nil ==> abciPhase == 0
